@@ -53,6 +53,8 @@ func stRootSecrets(sb *sandbox) {
 		if err := os.WriteFile(filepath.Join(sb.base, "secret."+e), []byte(secretParent), 0o644); err != nil {
 			panic("harness: cannot write a secret: " + err.Error())
 		}
+		// and the pre-compressed sidecar a build step may have left next to it (same recognisable content)
+		_ = os.WriteFile(filepath.Join(sb.base, "secret."+e+".gz"), []byte(secretParent), 0o644)
 	}
 	stRootNoteBase(sb)
 }
